@@ -527,8 +527,11 @@ def ifBranches (T : LexTables) (cfg : SetCfg) : Nat → List Expr → List (List
   | 0, _, _, _, _ => .error { kind := .outOfFuel }
   | fuel+1, conds, bodies, prev, ds => do
     let (body, endtag, tagArgs, last, ds) ← wrapUntil T cfg fuel [b!"elif", b!"else", b!"endif"] [] prev ds
+    -- the body that just ended was opened by `else` exactly when every condition has its body already
+    let afterElse := bodies.length == conds.length
     let bodies := bodies ++ [body]
-    if endtag == b!"elif" then do
+    if afterElse && endtag != b!"endif" then .error (tagArgs.err "Only 'endif' is allowed after 'else'.")
+    else if endtag == b!"elif" then do
       let (c, tagArgs) ← parseExpression cfg fuel tagArgs
       if tagArgs.remaining > 0 then .error (tagArgs.err "Elif-condition is malformed.")
       else ifBranches T cfg fuel (conds ++ [c]) bodies last ds
